@@ -14,7 +14,7 @@ def main():
     mod = importlib.import_module("checks." + a.prop.lower())
     try:
         if a.replay:
-            rc = mod.replay(a.replay)
+            rc = (getattr(mod, "replay_file", None) or mod.replay)(a.replay)
         else:
             rc = mod.run(a.tier)
     except Exception:
